@@ -162,7 +162,11 @@ Step(e) ==
        /\ UNCHANGED <<M, Hk, clears, open, lp, lastClear, replica, full, synced, alive, td, f5, nclr, cq, rlk, fq, stopping, kf>>
     \/ /\ e.e = "req" /\ e.op = "unlink"
        /\ cq' = [cq EXCEPT ![e.r][e.lane] = Append(@, [op |-> "unlink", pos |-> <<>>])]
-       /\ UNCHANGED <<M, Hk, clears, open, lp, lastClear, replica, full, synced, win, adm, alive, td, sfresh, wupd, f5, swin, nclr, late, sq, rlk, fq, stopping, kf>>
+       \* a remote that asks to be unlinked while a sync of its own is outstanding is in the situation of F5 once the
+       \* runtime has dealt with the unlink: the lane's answer will link it again, and what the lane broadcast in
+       \* between went to a remote that was not linked
+       /\ sfresh' = IF sq[e.r][e.lane] # <<>> THEN [sfresh EXCEPT ![e.r][e.lane] = TRUE] ELSE sfresh
+       /\ UNCHANGED <<M, Hk, clears, open, lp, lastClear, replica, full, synced, win, adm, alive, td, wupd, f5, swin, nclr, late, sq, rlk, fq, stopping, kf>>
     \/ /\ e.e = "frame" /\ e.kind = "linked"
        /\ LET r == e.r  l == e.lane IN
           /\ fq[r][l] # <<>> /\ Head(fq[r][l]).k = "linked"
